@@ -30,11 +30,70 @@ class Site:
 
     def key(self):
         # local variable names are not part of a construct's identity
-        return '%s|%s|%s' % (self.func.qualname, A.anon_text(self.node, self.func.node, 80), self.exc)
+        node = self.node
+        if self.kind == 'match' and not isinstance(node.func.value, ast.Name):
+            # `rx.match(s).groupdict()` is the same construct as `m = rx.match(s) ... m.groupdict()`
+            node = ast.Call(func=ast.Attribute(value=ast.Name(id='_', ctx=ast.Load()), attr=node.func.attr, ctx=ast.Load()),
+                            args=node.args, keywords=node.keywords)
+        return '%s|%s|%s' % (self.func.qualname, A.anon_text(node, self.func.node, 80), self.exc)
+
+
+PURE_OBSERVERS = {'isinstance', 'issubclass', 'len', 'type', 'id', 'repr', 'str', 'bool', 'hasattr', 'getattr', 'callable'}
+
+
+def local_value(cfg, at, name, _cache=None):
+    """the expression the local `name` certainly stands for when control reaches the CFG node `at`, or None.
+
+    The only definition of `name` that reaches `at` is a plain `name = <expr>`; on no path from that definition to `at`
+    is a variable read by <expr> re-bound, nor an object <expr> reads from mutated / handed to a call that could mutate
+    it.  Evaluating <expr> at `at` would therefore give the value the local holds: `n = len(x.value) ... if n != 1` is
+    the test `len(x.value) != 1`."""
+    from .cfg import defs_of, reaching_defs
+    key = ('rd', name)
+    if _cache is not None and key in _cache:
+        rd = _cache[key]
+    else:
+        rd = reaching_defs(cfg, name, entry_def=True)
+        if _cache is not None:
+            _cache[key] = rd
+    defs = rd.get(at, set())
+    if len(defs) != 1:
+        return None
+    d = next(iter(defs))
+    a = d.ast
+    if d is cfg.entry or not (isinstance(a, ast.Assign) and len(a.targets) == 1 and isinstance(a.targets[0], ast.Name)
+                              and a.targets[0].id == name):
+        return None
+    reads = A.names_read(a.value)
+    if name in reads:
+        return None
+    after = cfg.reach([m for (m, lab) in cfg.succ[d]], blocked=[d])
+    for x in after:
+        if x is at or x.ast is None or at not in cfg.reach([x], blocked=[d]):
+            continue
+        # x lies between the definition and the use
+        if any(defs_of(x, v) for v in reads):
+            return None
+        own = list(own_exprs(x))
+        for m in A.find_mutations(own):
+            if A.names_read(m.receiver) & reads:
+                return None
+        for c in own:
+            if isinstance(c, ast.Call) and norm(c.func) not in PURE_OBSERVERS:
+                operands = list(c.args) + [k.value for k in c.keywords]
+                if isinstance(c.func, ast.Attribute):
+                    operands.append(c.func.value)
+                if any(A.names_read(o) & reads for o in operands):
+                    return None
+    return a.value
 
 
 CONV = {'int': 'ValueError', 'float': 'ValueError', 'complex': 'ValueError', 'chr': 'ValueError,OverflowError',
         'ord': 'TypeError', 'bytes': 'ValueError'}
+
+
+def _is_match_call(e):
+    return isinstance(e, ast.Call) and isinstance(e.func, ast.Attribute) and e.func.attr in ('match', 'search', 'fullmatch')
 
 
 def collect_sites(repo, func):
@@ -58,7 +117,7 @@ def collect_sites(repo, func):
             elif fn in ('datetime.date', 'datetime.datetime', 'datetime.timezone', 'datetime.time'):
                 out.append(Site(func, n, 'conv', norm(n)[:80], 'ValueError'))
             elif isinstance(n.func, ast.Attribute) and n.func.attr in ('groupdict', 'group', 'groups') \
-                    and isinstance(n.func.value, ast.Name):
+                    and (isinstance(n.func.value, ast.Name) or _is_match_call(n.func.value)):
                 out.append(Site(func, n, 'match', norm(n)[:80], 'AttributeError'))
         elif isinstance(n, ast.Subscript) and isinstance(n.ctx, (ast.Load, ast.Del)) and not isinstance(n.slice, ast.Slice):
             out.append(Site(func, n, 'sub', norm(n)[:80], 'KeyError/IndexError'))
@@ -81,6 +140,8 @@ class Judge:
         self.cfg = CFG(func.node)
         self.sn = func.params[0] if func.params and func.cls is not None else None
         self.assume = assume or {}
+        self.at = None
+        self._lv_cache = {}
 
     # -- helpers ---------------------------------------------------------
     def nodes_of(self, node):
@@ -103,9 +164,19 @@ class Judge:
         out = []
         for n in self.cfg.nodes:
             if n.kind == 'test':
+                self.at = n       # the test being looked at, for predicates that resolve locals (local_value)
                 for lab in self._labels(n.ast, pred):
                     out.append((n, lab))
+        self.at = None
         return out
+
+    def standing_for(self, e):
+        """the expression a local name stands for at the test being examined (see local_value), else e itself."""
+        if isinstance(e, ast.Name) and self.at is not None:
+            v = local_value(self.cfg, self.at, e.id, self._lv_cache)
+            if v is not None:
+                return v
+        return e
 
     def _labels(self, test, pred):
         """labels of `test` under which pred certainly holds (handles not / and / or)."""
@@ -255,7 +326,8 @@ class Judge:
             if norm(t) in same:
                 return True
             if isinstance(t, ast.Compare) and len(t.ops) == 1:
-                l, r = norm(t.left), norm(t.comparators[0])
+                # `n = len(x) ... if n != 1` is the test `len(x) != 1`
+                l, r = norm(self.standing_for(t.left)), norm(t.comparators[0])
                 if l == 'len(%s)' % et and isinstance(t.comparators[0], ast.Constant) and isinstance(t.comparators[0].value, int):
                     v = t.comparators[0].value
                     op = t.ops[0]
@@ -685,6 +757,8 @@ def judge_site(repo, J, site, ctx_assume, indent_pairing_ok=None):
                     # an attribute holding a stdlib decoder: (str, consumed)
                     if v.func.attr == 'raw_decode' and arity == 2:
                         return ('guarded', 'G-arity (codec decoders return (text, consumed))')
+            if _comprehension_length(v) == arity:
+                return ('guarded', 'G-arity (one element per item of a literal display of %d items)' % arity)
             if isinstance(v, ast.Attribute) and v.attr == 'value' or isinstance(v, ast.Name) and v.id in ('tag', 'version'):
                 return ('assumed', 'A-TOKEN-SHAPE: token/event payload tuples are built as 2-tuples (R-TOKEN-SHAPES)')
             if isinstance(v, ast.Call) and isinstance(v.func, ast.Attribute) and v.func.attr in ('rsplit', 'split', 'partition') \
@@ -698,6 +772,9 @@ def judge_site(repo, J, site, ctx_assume, indent_pairing_ok=None):
     if site.kind == 'assert':
         return ('assumed', 'stated belief (assert): %s' % site.text)
     if site.kind == 'match':
+        if _is_match_call(n.func.value):
+            return ('unguarded', 'method call on a possibly-None match object (the result of %s() is used without a test)'
+                    % n.func.value.func.attr)
         edges = J.g_truthy(n.func.value)
 
         def notnone(t, name=n.func.value.id):
@@ -759,8 +836,97 @@ def _digits_origin(J, site, e, depth=0):
     return None
 
 
+def _literal_strings(e):
+    """the strings of a literal tuple / list / set display of string constants, else None."""
+    if isinstance(e, (ast.Tuple, ast.List, ast.Set)) and e.elts and all(A.const_str(x) is not None for x in e.elts):
+        return [A.const_str(x) for x in e.elts]
+    return None
+
+
+def _key_strings(J, e, at):
+    """the strings a subscript key can be: a string constant, or a name that runs over a literal display of strings
+    (the target of an enclosing comprehension / of the `for` loop whose binding reaches the CFG nodes `at`)."""
+    s = A.const_str(e)
+    if s is not None:
+        return [s]
+    if not isinstance(e, ast.Name):
+        return None
+    p = e
+    while p is not None and p is not J.f.node:
+        p = getattr(p, '_parent', None)
+        if isinstance(p, (ast.ListComp, ast.SetComp, ast.GeneratorExp, ast.DictComp)):
+            for gen in p.generators:
+                if any(isinstance(x, ast.Name) and x.id == e.id for x in ast.walk(gen.target)):
+                    # the innermost binding of the name
+                    return _literal_strings(gen.iter) if isinstance(gen.target, ast.Name) else None
+    from .cfg import reaching_defs
+    rd = reaching_defs(J.cfg, e.id, entry_def=True)
+    defs = set()
+    for n in at:
+        defs |= rd.get(n, set())
+    out = []
+    for d in defs:
+        if d.kind == 'for' and isinstance(d.stmt.target, ast.Name) and _literal_strings(d.ast) is not None:
+            out.extend(_literal_strings(d.ast))
+        elif d.kind == 'stmt' and isinstance(d.ast, ast.Assign) and all(isinstance(t, ast.Name) for t in d.ast.targets) \
+                and A.const_str(d.ast.value) is not None:
+            out.append(A.const_str(d.ast.value))
+        else:
+            return None
+    return out or None
+
+
+def _match_regex(repo, J, recv, depth=0):
+    """recv evaluates to the result of <self/cls>.<attr>.match(...) / .fullmatch(...) for a class-level compiled regex
+    (directly, or through a local all of whose bindings are such calls of the same regex): (pattern text, re.compile call)."""
+    f = J.f
+    if isinstance(recv, ast.Name) and depth < 3:
+        if recv.id in f.params:
+            return None
+        stores = [x for x in walk_function(f.node) if isinstance(x, ast.Name) and x.id == recv.id and isinstance(x.ctx, (ast.Store, ast.Del))]
+        defs = [x for x in walk_function(f.node) if isinstance(x, ast.Assign) and len(x.targets) == 1
+                and isinstance(x.targets[0], ast.Name) and x.targets[0].id == recv.id]
+        if not defs or len(defs) != len(stores):
+            return None
+        pats = [_match_regex(repo, J, x.value, depth + 1) for x in defs]
+        if any(p is None for p in pats) or len(set(p[0] for p in pats)) != 1:
+            return None
+        return pats[0]
+    if isinstance(recv, ast.Call) and isinstance(recv.func, ast.Attribute) and recv.func.attr in ('match', 'fullmatch') \
+            and isinstance(recv.func.value, ast.Attribute) and isinstance(recv.func.value.value, ast.Name) and f.cls is not None:
+        found = repo.lookup(f.cls, recv.func.value.attr)
+        if found and not isinstance(found[1], FuncInfo):
+            v = found[1][-1]
+            if isinstance(v, ast.Call) and v.args and A.const_str(v.args[0]) is not None:
+                return (A.const_str(v.args[0]), v)
+    return None
+
+
+def _groupdict_regex(repo, J, var):
+    """the local `var` is bound only by `var = <match>.groupdict()` for matches of one class-level regex: (pattern, call)."""
+    f = J.f
+    if var in f.params:
+        return None
+    stores = [x for x in walk_function(f.node) if isinstance(x, ast.Name) and x.id == var and isinstance(x.ctx, (ast.Store, ast.Del))]
+    defs = [x for x in walk_function(f.node) if isinstance(x, ast.Assign) and len(x.targets) == 1
+            and isinstance(x.targets[0], ast.Name) and x.targets[0].id == var]
+    if not defs or len(defs) != len(stores):
+        return None
+    pats = []
+    for x in defs:
+        v = x.value
+        if not (isinstance(v, ast.Call) and isinstance(v.func, ast.Attribute) and v.func.attr == 'groupdict'
+                and not v.args and not v.keywords):
+            return None
+        pats.append(_match_regex(repo, J, v.func.value))
+    if any(p is None for p in pats) or len(set(p[0] for p in pats)) != 1:
+        return None
+    return pats[0]
+
+
 def _g_group(repo, J, site):
-    """int(values['g'] [or 0]) / int(x) where x derives from a named group whose language is digits only."""
+    """int(values['g'] [or 0]) / int(x) where x derives from a named group whose language is digits only.  The group name
+    may run over a literal display (`int(values[k]) for k in ('year', 'month')`): every alternative must qualify."""
     f = J.f
     arg = site.node.args[0]
     if isinstance(arg, ast.BoolOp) and isinstance(arg.op, ast.Or) and isinstance(arg.values[-1], ast.Constant) \
@@ -771,11 +937,15 @@ def _g_group(repo, J, site):
         return v is not None and (v.isdigit() or v == '')
 
     def origin(e, depth=0):
-        """(group name, dict variable) when e is a named group, possibly cut / padded with digits (digit-preserving)."""
+        """set of (group name, dict variable) alternatives when e is a named group, possibly cut / padded with digits
+        (digit-preserving); None when e can be anything else."""
         if depth > 6:
             return None
-        if isinstance(e, ast.Subscript) and isinstance(e.value, ast.Name) and A.const_str(e.slice):
-            return A.const_str(e.slice), e.value.id
+        if isinstance(e, ast.Subscript) and isinstance(e.value, ast.Name) and not isinstance(e.slice, ast.Slice):
+            keys = _key_strings(J, e.slice, at_nodes[-1])
+            if keys is None:
+                return None
+            return frozenset((k, e.value.id) for k in keys)
         if isinstance(e, ast.Subscript) and isinstance(e.slice, ast.Slice):
             return origin(e.value, depth + 1)
         if isinstance(e, ast.Call) and isinstance(e.func, ast.Attribute) and e.func.attr in ('ljust', 'rjust') \
@@ -801,13 +971,13 @@ def _g_group(repo, J, site):
             got = set()
             for dn in defs:
                 a = dn.ast
-                if isinstance(a, ast.Assign):
+                if isinstance(a, ast.Assign) and all(isinstance(t, ast.Name) for t in a.targets):
                     at_nodes.append([dn])
                     o = origin(a.value, depth + 1)
                     at_nodes.pop()
                     if o is None:
                         return None
-                    got.add(o)
+                    got |= o
                 elif isinstance(a, ast.AugAssign):
                     if not (isinstance(a.op, ast.Add) and digit_const(a.value)):
                         return None
@@ -815,62 +985,62 @@ def _g_group(repo, J, site):
                     o = origin(ast.Name(id=e.id, ctx=ast.Load()), depth + 1) if depth < 3 else None
                     at_nodes.pop()
                     if o is not None:
-                        got.add(o)
+                        got |= o
                     # a self-referential padding loop contributes nothing new
                 else:
                     return None
-            if len(got) == 1:
-                return got.pop()
-            return None
+            return frozenset(got) or None
         return None
     at_nodes = [J.nodes_of(site.node)]
-    name = None
-    o = origin(arg)
-    if o is not None:
-        name, var = o
-    if name is None:
-        return None
-    # var = match.groupdict() of a class-level regex
-    pat = None
-    for a in walk_function(f.node):
-        if isinstance(a, ast.Assign) and any(isinstance(t, ast.Name) and t.id == var for t in a.targets) \
-                and isinstance(a.value, ast.Call) and isinstance(a.value.func, ast.Attribute) and a.value.func.attr == 'groupdict':
-            m = a.value.func.value
-            for b in walk_function(f.node):
-                if isinstance(b, ast.Assign) and isinstance(m, ast.Name) and any(isinstance(t, ast.Name) and t.id == m.id for t in b.targets) \
-                        and isinstance(b.value, ast.Call) and isinstance(b.value.func, ast.Attribute) \
-                        and b.value.func.attr in ('match', 'fullmatch') and isinstance(b.value.func.value, ast.Attribute):
-                    attr = b.value.func.value.attr
-                    found = repo.lookup(f.cls, attr) if f.cls else None
-                    if found and not isinstance(found[1], FuncInfo):
-                        v = found[1][-1]
-                        if isinstance(v, ast.Call) and v.args:
-                            pat = (A.const_str(v.args[0]), v)
-    if pat is None or pat[0] is None:
+    alts = origin(arg)
+    if not alts:
         return None
     from . import relang as RL
     from . import rules_lang as RLG
-    flags = RLG.Langs._flags(pat[1])
-    alpha = RL.Alphabet(RL.points_of(pat[0], flags))
-    groups = RLG.group_languages(alpha, pat[0], flags)
-    if name not in groups:
-        return None
-    digits = RL.compile_regex(alpha, r'^[0-9]*$')
-    ok, w = RL.included(groups[name], digits)
-    if not ok:
-        return None
-    # emptiness: either the group cannot be empty, or a truthiness test of it dominates, or `or <int>` supplies a default
-    nonempty = not groups[name].nullable()
-    orig = site.node.args[0]
-    if isinstance(orig, ast.BoolOp):
-        nonempty = True
-    if not nonempty:
-        edges = J.g_truthy(ast.parse("%s['%s']" % (var, name), mode='eval').body)
-        if edges and J.guarded_by_edges(site.node, edges):
+    langs = {}
+    for (name, var) in sorted(alts):
+        # var = <match>.groupdict() of a class-level regex
+        if var not in langs:
+            pat = _groupdict_regex(repo, J, var)
+            if pat is None:
+                return None
+            flags = RLG.Langs._flags(pat[1])
+            alpha = RL.Alphabet(RL.points_of(pat[0], flags))
+            langs[var] = (RLG.group_languages(alpha, pat[0], flags), RL.compile_regex(alpha, r'^[0-9]*$'))
+        groups, digits = langs[var]
+        if name not in groups:
+            return None
+        ok, w = RL.included(groups[name], digits)
+        if not ok:
+            return None
+        # emptiness: either the group cannot be empty, or a truthiness test of it dominates, or `or <int>` supplies a default
+        nonempty = not groups[name].nullable()
+        orig = site.node.args[0]
+        if isinstance(orig, ast.BoolOp):
             nonempty = True
-    if not nonempty:
-        return None
-    return 'G-group (named group %s captures digits only)' % name
+        if not nonempty:
+            edges = J.g_truthy(ast.parse("%s['%s']" % (var, name), mode='eval').body)
+            if edges and J.guarded_by_edges(site.node, edges):
+                nonempty = True
+        if not nonempty:
+            return None
+    names = sorted(set(n for (n, v) in alts))
+    if len(names) == 1:
+        return 'G-group (named group %s captures digits only)' % names[0]
+    return 'G-group (named groups %s capture digits only)' % ', '.join(names)
+
+
+def _comprehension_length(v):
+    """number of elements of `[f(x) for x in (a, b, c)]` (also a generator expression, also wrapped in list() / tuple()):
+    one unfiltered generator over a literal tuple / list display yields exactly one element per item.  None otherwise."""
+    if isinstance(v, ast.Call) and norm(v.func) in ('list', 'tuple') and len(v.args) == 1 and not v.keywords:
+        v = v.args[0]
+    if isinstance(v, (ast.ListComp, ast.GeneratorExp)) and len(v.generators) == 1:
+        gen = v.generators[0]
+        if not gen.ifs and not gen.is_async and isinstance(gen.iter, (ast.Tuple, ast.List)) \
+                and not any(isinstance(x, ast.Starred) for x in gen.iter.elts):
+            return len(gen.iter.elts)
+    return None
 
 
 def _returns_arity(ret, func, arity):
